@@ -168,3 +168,60 @@ _getter("mutation", "mutations", "TSK_ERR_MUTATION_OUT_OF_BOUNDS", ["site_mutati
 # individual_nodes[index] - which the memory model of the generator does not cover: not under contract)
 _getter("population", "populations", "TSK_ERR_POPULATION_OUT_OF_BOUNDS")
 _getter("provenance", "provenances", "TSK_ERR_PROVENANCE_OUT_OF_BOUNDS")
+
+
+# ------------------------------------------------------------------------------------------ tracked samples
+@contract("trees.c", "tsk_tree_has_sample_counts", ["self"])
+def has_sample_counts(c):
+    self_ = c.arg("self")
+    h, E = c.old, c.E
+    c.requires(z3.Not(h.isnull(self_)))
+    c.ensures(lambda: (c.result != 0) == z3.Not(flag(h.get(self_, "options"), E.TSK_NO_SAMPLE_COUNTS)), "iff_option_clear")
+    c.assigns()
+
+
+@contract("trees.c", "tsk_treeseq_is_sample", ["self", "u"])
+def treeseq_is_sample(c):
+    self_, u = c.arg("self"), c.arg("u")
+    h, E = c.old, c.E
+    c.requires(z3.Not(h.isnull(self_)))
+    tp = h.get(self_, "tables")
+    c.requires(z3.And(z3.Not(h.isnull(tp)), tp.off == 0, h.len(tp) >= 1))
+    T = TC(h, tp)
+    c.requires(T.nodes.rep())
+    fl = T.nodes.col("flags")
+    c.ensures(lambda: (c.result != 0) == z3.And(0 <= u, u < T.nodes.n, flag(fl[u], E.TSK_NODE_IS_SAMPLE)), "a_node_with_the_sample_bit")
+    c.assigns()
+
+
+@contract("trees.c", "tsk_tree_reset_tracked_samples", ["self"])
+def reset_tracked_samples(c):
+    self_, h, E, n, par = pre(c)
+    nosc = flag(h.get(self_, "options"), E.TSK_NO_SAMPLE_COUNTS)
+    ntp = h.get(self_, "num_tracked_samples")
+    c.ensures(lambda: (c.result == 0) == z3.Not(nosc), "needs_sample_counts")
+    c.ensures(lambda: z3.Or(c.result == 0, c.result == E.TSK_ERR_UNSUPPORTED_OPERATION), "codes")
+    c.ensures(lambda: z3.Implies(c.result == 0, z3.ForAll([t_], z3.Implies(z3.And(0 <= t_, t_ <= n), c.new.arr(ntp)[t_] == 0))), "all_zero")
+    c.assigns(ntp)
+
+
+@contract("trees.c", "tsk_tree_set_tracked_samples", ["self", "num_tracked_samples", "tracked_samples"])
+def set_tracked_samples(c):
+    """C09: every tracked id is checked (a node, a sample, not listed twice) before the counts above it are touched,
+    and the walk up the parent array stays inside the arrays"""
+    self_, h, E, n, par = pre(c, need_time=True)
+    m, tp_ = c.arg("num_tracked_samples"), c.arg("tracked_samples")
+    c.requires(z3.Implies(m > 0, z3.And(z3.Not(h.isnull(tp_)), tp_.off == 0, h.len(tp_) >= m)))
+    ids = h.arr(tp_) if tp_.region is not None else None
+    T = TC(h, h.get(h.get(self_, "tree_sequence"), "tables"))
+    fl = T.nodes.col("flags")
+    good = (lambda q: z3.And(0 <= ids[q], ids[q] < n, flag(fl[ids[q]], E.TSK_NODE_IS_SAMPLE))) if ids is not None else (lambda q: z3.BoolVal(True))
+    c.loop(0).invariant(lambda s: z3.And(0 <= s.j, s.j <= m, s.ret == 0, z3.Not(flag(h.get(self_, "options"), E.TSK_NO_SAMPLE_COUNTS)),
+                                         z3.ForAll([t_], z3.Implies(z3.And(0 <= t_, t_ < s.j), good(t_)))))
+    c.loop(1).invariant(lambda s: z3.And(0 <= s.j, s.j < m, s.ret == 0, -1 <= s.u, s.u < n, good(s.j),
+                                         z3.Not(flag(h.get(self_, "options"), E.TSK_NO_SAMPLE_COUNTS)),
+                                         z3.ForAll([t_], z3.Implies(z3.And(0 <= t_, t_ < s.j), good(t_)))))
+    c.ensures(lambda: z3.Implies(c.result == 0, z3.ForAll([t_], z3.Implies(z3.And(0 <= t_, t_ < m), good(t_)))), "accepted_ids_are_sample_nodes")
+    c.ensures(lambda: z3.Or(c.result == 0, c.result == E.TSK_ERR_NODE_OUT_OF_BOUNDS, c.result == E.TSK_ERR_BAD_SAMPLES,
+                            c.result == E.TSK_ERR_DUPLICATE_SAMPLE, c.result == E.TSK_ERR_UNSUPPORTED_OPERATION), "codes")
+    c.assigns(h.get(self_, "num_tracked_samples"))
